@@ -237,3 +237,17 @@ def c09(r):
     r.exhaustive = True
     r.extra['bounds'] = '8 container kinds x (at/put/insert/delete/concat/count/set@/@) x 7-11 argument kinds x 14 positions, all single operations; all pairs of a reduced pool; forall lock programs'
     r.conform(scs)
+
+
+@prop('C11')
+def c11(r):
+    r.assumptions += ['a derived text that the parser accepts is not judged (its meaning is unknown to the generator); only rejected texts are',
+                      'names introduced only by the rejected text are exempt (they may exist as nulls)']
+    scs = r.gen('Gen_C11', 'Gen_C11.cfg', timeout=3000)
+    r.exhaustive = True
+    obs = r.conform(scs)
+    rejected = sum(1 for o in obs.values() if len(o.get('obs', [])) > 2 and o['obs'][2].get('oc') == 'parse_error')
+    r.extra['texts_actually_rejected'] = rejected
+    r.extra['bounds'] = '10 victim programs x (cut | delete | replace) at every token position; prefix with $-variable, table, tuple, 3 functions; dump + probe program after each'
+    if rejected < 100:
+        raise MachineryFailure('only %d derived texts were rejected: the generator lost its bite' % rejected)
